@@ -29,3 +29,6 @@
 (declare-fun asJSON (Int) Any)
 ; meaning of a has-expression tree rooted at a reference (defined per function by 'axiom' clauses)
 (declare-fun hm (Any Int) Bool)
+; the value MatchesCondition returns for (traveler, condition reference) -- a name for
+; the result of a pure deterministic function (see 'function' clause in its contract)
+(declare-fun condSem (Any Int) Bool)
